@@ -481,6 +481,20 @@ pub fn drive_sustain_bounds(s: &mut Session, rng: &mut Rng) {
                 s.tick();
                 s.set_sustain(level);
                 s.tick();
+                if ticks == 40 {
+                    // the level is moved and the key released before the next tick: the release starts from
+                    // what is being output, not from the level just requested
+                    s.set_sustain(0.3);
+                    s.gate_off();
+                    for _ in 0..5 {
+                        s.tick();
+                    }
+                    s.gate_on();
+                    for _ in 0..(2 * ticks + 5) {
+                        s.tick();
+                    }
+                    s.set_sustain(0.9);
+                }
                 if rng.chance(1, 2) {
                     // re-trigger from the sustain level (exactly 1.0 or 0.0)
                     s.gate_on();
